@@ -28,6 +28,10 @@ use crate::REQUEST_FRAMING_BYTES;
 
 const HEX: Encoding = HEXLOWER_PERMISSIVE;
 
+/// Deepest level of nested messages that `to_string()` will expand (real Roughtime
+/// messages nest three levels: response, CERT, DELE).
+const MAX_DISPLAY_NESTING: usize = 8;
+
 ///
 /// A Roughtime protocol message; a map of u32 tags to arbitrary byte-strings.
 ///
@@ -336,8 +340,16 @@ impl RtMessage {
             result.push_str(&value.len().to_string());
             result.push_str(") = ");
 
-            if tag.is_nested() {
-                let nested_msg = RtMessage::from_bytes(value).unwrap();
+            // Values may come from untrusted input: show anything that does not parse as a
+            // message, or is nested implausibly deep, as hex instead of panicking or recursing
+            // without bound.
+            let nested_msg = if tag.is_nested() && indent_level <= MAX_DISPLAY_NESTING {
+                RtMessage::from_bytes(value).ok()
+            } else {
+                None
+            };
+
+            if let Some(nested_msg) = nested_msg {
                 result.push_str(&nested_msg.to_string(indent_level + 1))
             } else {
                 result.push_str(&HEX.encode(value));
